@@ -255,6 +255,19 @@ var c10MathShapes = []string{
 	`{if {isnum {3}} {! [3] * 2} {! [code] * 2}}`, `{! [code] > 300}`, `{! round([code] / 7)}`,
 }
 
+// shapes of the lookup family: a table (inline text, or loaded from a file) consulted by every worker
+var c10LookupShapes = []string{
+	`{lookup {verb} "GET g\nPOST p\nPUT\nDEL d"}`,
+	`{haskey {verb} "GET\nDEL"}`,
+	`{if {0} {lookup {code} "200 ok\n404 nf\n500 err"} none}`,
+	`{lookup {1} {load table.txt}}`,
+	`{if {haskey {code} {load table.txt}} {lookup {code} {load table.txt}} {verb}}`,
+	`{lookup {verb} "# verbs\nGET g\nPOST p" "#"}-{lookup {path} "/a A\n/ root"}`,
+	`{if {gt {len {0}} 8} {lookup {2} "200 ok\n7 seven\n0042 x"}}`,
+	`{if {0} {lookup {verb} {load table.txt}} -}`,
+	`{if {0} {haskey {code} {load table.txt}}}:{if {1} {lookup {code} {load table.txt}}}`,
+}
+
 // shapes of the time-parsing family: %D is a date-valued expression
 var c10TimeShapes = []string{
 	`{time %D}`,
@@ -291,7 +304,7 @@ func init() {
 			}
 		}
 		sort.Strings(fns)
-		family := []string{"builtin", "builtin", "funcs", "funcs", "time", "range", "timeparse", "timefuncs", "math"}[t.W(9)]
+		family := []string{"builtin", "builtin", "funcs", "funcs", "time", "range", "timeparse", "timefuncs", "math", "lookup"}[t.W(10)]
 		sc := genPipeScenario(rc, true, 30)
 		sc.MatcherKind, sc.Pattern, sc.IgnoreCase = 1, c10Pattern, false
 		sc.Ignores = nil
@@ -310,6 +323,9 @@ func init() {
 			}
 			sc.Workers, sc.Batch, sc.Readers, sc.ConsLatPm, sc.ConsLatMs = 2, 1, 1, 0, 0
 			rc.Probes["tight-runs"]++
+		}
+		if family == "lookup" && sc.Workers == 1 {
+			sc.Workers = 2 + t.W(3)
 		}
 		if family == "math" && sc.Workers == 1 {
 			sc.Workers = 2 + t.W(3)
@@ -563,6 +579,16 @@ func init() {
 			case "math":
 				tpl = c10MathShapes[t.W(len(c10MathShapes))]
 				refTpl = tpl
+			case "lookup":
+				// (a table of a few thousand entries: whatever a helper does with it on first use takes a while)
+				var tb strings.Builder
+				for i := 0; i < 4000; i++ {
+					fmt.Fprintf(&tb, "filler%d v%d\n", i, i)
+				}
+				tb.WriteString("GET g\nPOST p\n200 ok\n404 nf\n301\nDEL d\n")
+				os.WriteFile("table.txt", []byte(tb.String()), 0o644)
+				tpl = c10LookupShapes[t.W(len(c10LookupShapes))]
+				refTpl = tpl
 			case "timeparse":
 				shape := c10TimeShapes[t.W(len(c10TimeShapes))]
 				d := c10DateExprs[t.W(len(c10DateExprs))]
@@ -755,6 +781,8 @@ func init() {
 							cl = "funcs-file-differs"
 						case "math":
 							cl = "math-differs"
+						case "lookup":
+							cl = "lookup-differs"
 						case "range":
 							cl = "range-helpers-differ"
 						case "timeparse":
